@@ -84,3 +84,20 @@ theorem sumd_nonneg {n : ℕ} (f : Fin n → ℝ) (h : ∀ d, 0 ≤ f d) : 0 ≤
 theorem sumd_mono {n : ℕ} (f g : Fin n → ℝ) (h : ∀ d, f d ≤ g d) : ∑ d, f d ≤ ∑ d, g d := Finset.sum_le_sum (fun d _ => h d)
 theorem sumd_congr {n : ℕ} (f g : Fin n → ℝ) (h : ∀ d, f d = g d) : ∑ d, f d = ∑ d, g d := Finset.sum_congr rfl (fun d _ => h d)
 theorem sumd_zero {n : ℕ} (f : Fin n → ℝ) (h : ∀ d, f d = 0) : ∑ d, f d = 0 := Finset.sum_eq_zero (fun d _ => h d)
+
+/-- matrix layer (C07): a 1 x 1 matrix is its trace times the identity -/
+theorem one_by_one_eq_trace_smul_one (M : Matrix (Fin 1) (Fin 1) ℝ) : M = M.trace • (1 : Matrix (Fin 1) (Fin 1) ℝ) := by
+  ext i j
+  fin_cases i; fin_cases j
+  simp [Matrix.trace]
+
+/-- matrix layer (C10, C20): two diagonal scalings merge into the scaling by the product -/
+theorem diag_scalings_merge {m n : ℕ} (A : Matrix (Fin m) (Fin n) ℝ) (f g : Fin n → ℝ) :
+    A * Matrix.diagonal f * Matrix.diagonal g = A * Matrix.diagonal (fun i => f i * g i) := by
+  rw [Matrix.mul_assoc, Matrix.diagonal_mul_diagonal]
+
+/-- matrix layer (C10): the first columns of a product are the product with the first columns -/
+theorem cols_of_product {m n p k : ℕ} (A : Matrix (Fin m) (Fin n) ℝ) (B : Matrix (Fin n) (Fin p) ℝ) (e : Fin k → Fin p) :
+    (A * B).submatrix id e = A * B.submatrix id e := by
+  ext i j
+  simp [Matrix.mul_apply, Matrix.submatrix]
